@@ -11,6 +11,7 @@ including compiler pipelines (each compiler selected against the kind produced b
 import itertools
 import z3
 from pyvc.values import *  # noqa
+from pyvc.values import Rec, CList, ExcVal
 from pyvc.verify import Unit
 from pyvc.engine import LoopSpec
 from pyvc import builtins as B
@@ -217,6 +218,136 @@ class GetEngineClass(Unit):
             st.oblige("no-suitable-engine error only when no preferred engine qualifies", z3.Not(some))
 
 
+QN_GE = "unified_planning.engines.factory.Factory._get_engine"
+EngineClass.observers["resulting_problem_kind"] = ((KindT, CK), KindT)
+EngineClass.observers["get_credits"] = ((), Ref("Credits"))
+
+
+class Pipeline(Unit):
+    """pipeline branch of Factory._get_engine for k compilation kinds (k concrete, everything else symbolic)"""
+    prop = "C32"
+    allowed_raises = (UPNoSuitableEngineAvailableException,)
+
+    def __init__(self, k):
+        self.k = k
+        self.name = f"_get_engine[pipeline of {k}]"
+        self.doc = ("each compiler is selected against the kind produced by the compilers before it "
+                    "(kind threaded through resulting_problem_kind); bounded in the pipeline length")
+        self.kind = "bounded(len<=3)"
+
+    def target(self):
+        return fac.Factory._get_engine
+
+    def configure(self, eng):
+        eng.B._handlers[issubclass] = _issubclass
+
+        def gec_contract(eng_, st, args, kw):
+            # Factory._get_engine_class as proved by the GetEngineClass units (name=None)
+            _self, mode, name, kind = args[:4]
+            ck = kw.get("compilation_kind")
+            s2 = st.fork()
+            yield s2.note("gec:none"), ExcVal(UPNoSuitableEngineAvailableException, (), "_get_engine_class")
+            ec = EngineClass.fresh("picked")
+            mode_axioms(eng_, st, ec)
+            none = lambda T_: SUnion([(z3.BoolVal(True), None), (z3.BoolVal(False), T_.fresh("unused"))])
+            st.assume(requirement_ok(eng_, st, ec, mode, kind, none(OG), SUnion([(z3.BoolVal(False), None), (z3.BoolVal(True), ck)]),
+                                     none(PK), none(AG)))
+            st.ghost["stages"] = st.ghost["stages"] + [(ec, kind, ck)]
+            yield st.note("gec:ok"), ec
+        eng.contracts[fac.Factory._get_engine_class] = gec_contract
+        eng.contracts[fac.Factory._print_credits] = lambda e, st, a, k: iter([(st, None)])
+        eng.class_models[fac.CompilersPipeline] = lambda e, st, a, k: iter([(st, st.alloc(Rec(fac.CompilersPipeline, {"compilers": a[0]}), "pipeline"))])
+        EngineClass.methods["__call__"] = lambda e, st, selfv, a, k: iter([(st, st.alloc(Rec(object, {"cls": selfv}), "compiler"))])
+
+    def setup(self, eng, st):
+        f = FactoryT.fresh("self")
+        kind = KindT.fresh("kind")
+        cks = [CK.fresh(f"ck{i}") for i in range(self.k)]
+        st.ghost["stages"] = []
+        kw = dict(problem_kind=kind, compilation_kinds=st.alloc(CList(cks), "list"))
+        return [f, OperationMode.COMPILER], kw, dict(kind=kind, cks=cks)
+
+    def post(self, eng, ctx, st, out):
+        stages = st.ghost["stages"]
+        cur = ctx["kind"]
+        for j, (ec, kind_arg, ck) in enumerate(stages):
+            st.oblige(f"stage {j}: compiler selected against the kind produced by the stages before it", kind_arg.z == cur.z)
+            st.oblige(f"stage {j}: asked for the requested compilation kind", ck.z == ctx["cks"][j].z)
+            cur = B.observer_uf(eng, st, ec, "resulting_problem_kind", (KindT, CK), KindT, [cur, ck])
+        if out[0] == "return":
+            st.oblige("one compiler per requested compilation kind", z3.BoolVal(len(stages) == self.k))
+
+    def replay(self, ctx, model, label):
+        return replay_pipeline({"k": self.k})
+
+
+def replay_pipeline(c):
+    """native: three stub compilers, each adding a marker feature; every stage must be asked whether it supports
+    exactly the kind produced by the stages before it"""
+    import sys
+    from unified_planning.environment import Environment
+    from unified_planning.engines.engine import Engine
+    from unified_planning.model import ProblemKind
+    markers = ["NEGATIVE_CONDITIONS", "DISJUNCTIVE_CONDITIONS", "EQUALITIES"]
+    cks = [CompilationKind.GROUNDING, CompilationKind.QUANTIFIERS_REMOVING, CompilationKind.NEGATIVE_CONDITIONS_REMOVING]
+    asked = []
+    m = type(sys)("verif_stubpipe")
+    for i in range(3):
+        def mk(i=i):
+            class Stub(Engine, MIXINS["CompilerMixin"]):
+                def __init__(self, *a, **k):
+                    Engine.__init__(self)
+                    MIXINS["CompilerMixin"].__init__(self)
+
+                @property
+                def name(self):
+                    return f"stub{i}"
+
+                @staticmethod
+                def supported_kind():
+                    return ProblemKind(version=3)
+
+                @staticmethod
+                def supports(pk):
+                    asked.append((i, frozenset(pk.features)))
+                    return True
+
+                @staticmethod
+                def supports_compilation(ck):
+                    return ck == cks[i]
+
+                @staticmethod
+                def resulting_problem_kind(pk, ck=None):
+                    r = pk.clone()
+                    r.set_conditions_kind(markers[i])
+                    return r
+
+                def _compile(self, problem, compilation_kind):
+                    raise NotImplementedError
+            Stub.__name__ = f"Stub{i}"
+            return Stub
+        setattr(m, f"Stub{i}", mk())
+    sys.modules["verif_stubpipe"] = m
+    f = Environment().factory
+    for i in range(3):
+        f.add_engine(f"stub{i}", "verif_stubpipe", f"Stub{i}")
+    f.preference_list = [f"stub{i}" for i in range(3)]
+    k = c.get("k", 3)
+    base = ProblemKind({"ACTION_BASED"}, version=3)
+    try:
+        f._get_engine(OperationMode.COMPILER, problem_kind=base, compilation_kinds=cks[:k])
+    except Exception as e:  # noqa
+        return {"reproduced": True, "concrete": c, "observed": f"raised {type(e).__name__}: {e}"}
+    want = set(base.features)
+    bad = []
+    for i in range(k):
+        got = [fs for (j, fs) in asked if j == i]
+        if frozenset(want) not in got:
+            bad.append(f"stage {i} was asked about {sorted(map(sorted, got))}, expected {sorted(want)}")
+        want = want | {markers[i]}
+    return {"reproduced": bool(bad), "concrete": c, "observed": bad}
+
+
 def replay_concrete(c):
     """one registered stub engine of the requested mode that fails exactly the listed requirement"""
     import sys
@@ -290,7 +421,8 @@ def replay_concrete(c):
 
 
 def replay_file(data):
-    return replay_concrete(data["concrete"])
+    c = data["concrete"]
+    return replay_pipeline(c) if "k" in c else replay_concrete(c)
 
 
 def _gec_replay(self, ctx, model, label):
@@ -311,7 +443,7 @@ def _gec_replay(self, ctx, model, label):
 
 GetEngineClass.replay = _gec_replay
 
-UNITS = [Satisfies(m) for m in OperationMode] + [GetEngineClass(m) for m in OperationMode]
+UNITS = [Satisfies(m) for m in OperationMode] + [GetEngineClass(m) for m in OperationMode] + [Pipeline(k) for k in (1, 2, 3)]
 
 
 # ------------------------------------------------------------------------------- bounded layer
